@@ -21,7 +21,8 @@ typedef struct {
 
 #define SE(k, lit, tag, core) { k, lit, (int) sizeof(lit) - 1, tag, core }
 
-static const sanent_t POOL[] = {
+static char dyn_san[64], dyn_cn[64], dyn_exp[64];   /* part S (byte substitutions): the mutable last slot of each table */
+static sanent_t POOL[] = {
     /* ---- dNSName */
     /*  0 */ SE(K_DNS, "www.example.com", "dns-exact", 1),
     /*  1 */ SE(K_DNS, "WWW.Example.COM", "dns-case", 1),
@@ -65,13 +66,16 @@ static const sanent_t POOL[] = {
     /* 36 */ SE(K_URI, "https://www.example.com/", "uri", 1),
     /* 37 */ SE(K_URI, "www.example.com", "uri-bare-host", 0),
     /* 38 */ SE(K_URI, "https://www.example.com/\0", "uri-trailing-nul", 0),
+    /* dynamic slot (index NPOOL): never enumerated by the table product */
+    { K_DNS, dyn_san, 0, "byte-substituted", 0 },
 };
-#define NPOOL ((int) (sizeof(POOL) / sizeof(POOL[0])))
+#define NPOOL ((int) (sizeof(POOL) / sizeof(POOL[0])) - 1)
+#define DYN_SAN NPOOL
 
 /* subject common name variants; index 0 = no CN attribute (the DN is then just O=MXV) */
 typedef struct { const char *b; int len; const char *tag; } cnent_t;
 #define CE(lit, tag) { lit, (int) sizeof(lit) - 1, tag }
-static const cnent_t CNS[] = {
+static cnent_t CNS[] = {
     /* 0 */ { NULL, -1, "cn-none" },
     /* 1 */ CE("www.example.com", "cn-exact"),
     /* 2 */ CE("WWW.EXAMPLE.COM", "cn-case"),
@@ -80,12 +84,14 @@ static const cnent_t CNS[] = {
     /* 5 */ CE("192.168.1.1", "cn-ip-literal"),
     /* 6 */ CE("user@example.com", "cn-email"),
     /* 7 */ CE("www.example.com\0.evil.org", "cn-embedded-nul"),
+    { dyn_cn, 0, "cn-byte-substituted" },
 };
-#define NCN ((int) (sizeof(CNS) / sizeof(CNS[0])))
+#define NCN ((int) (sizeof(CNS) / sizeof(CNS[0])) - 1)
+#define DYN_CN NCN
 
 /* expected names (what the application passes as expectedName) */
 typedef struct { const char *s; const char *tag; } expent_t;
-static const expent_t EXP[] = {
+static expent_t EXP[] = {
     /* host names */
     /*  0 */ { "www.example.com", "host" },
     /*  1 */ { "WWW.EXAMPLE.COM", "host-case" },
@@ -146,8 +152,10 @@ static const expent_t EXP[] = {
     /* 54 */ { "1.1.168.192", "ip-reversed" },
     /* wildcard siblings in other case */
     /* 55 */ { "A.EXAMPLE.COM", "host-sibling-case" },
+    { dyn_exp, "byte-substituted" },
 };
-#define NEXP ((int) (sizeof(EXP) / sizeof(EXP[0])))
+#define NEXP ((int) (sizeof(EXP) / sizeof(EXP[0])) - 1)
+#define DYN_EXP NEXP
 
 /* (nameType, mFlags) combinations that are enumerated */
 #define MF_CN  VCERTS_MFLAG_ALWAYS_CHECK_SUBJECT_CN
